@@ -5,7 +5,11 @@
    _controllable_action, step, _make_init and solver.
 
    Proved for arbitrary iterate lists: (a) every allowed step satisfies the
-   specified component action under the mode's causality rule.
+   specified component action under the mode's causality rule; (b) a Moore
+   implementation does not depend on the next environment values; (c) both
+   memory variables (_hold, _goal) are in range before every allowed step
+   under strict causality or when the environment keeps its action, and after
+   it when the environment keeps its action.
 
    REFUTED on the faithful model (and reproduced on the real code, DESIGN §7
    F3, F12): "never reaches a state in which the synthesized action allows no
@@ -22,7 +26,7 @@ From Coq Require Import List Bool Arith Lia.
 Import ListNotations.
 From Omega Require Import L4.Arena L4.Kleene L4.Tables.
 From OmegaGen Require Import FixpointGen Gr1Gen.
-From OmegaGP Require Import TransducerModel StreettTProofs RabinTProofs.
+From OmegaGP Require Import TransducerModel StreettTProofs RabinTProofs RabinTProofs2.
 Local Open Scope bool_scope.
 
 Section C05.
@@ -37,6 +41,22 @@ Proof.
   intros moore plus_one zk yki xkijr.
   exact (rabin_action_refines nc nx ny H G E S holds goals moore plus_one zk yki xkijr).
 Qed.
+
+Theorem C05_moore_independent_of_next_env : forall plus_one zk yki xkijr,
+  Forall indep zk -> Forall (Forall indep) yki ->
+  Forall (Forall (Forall (Forall indep))) xkijr ->
+  Forall indep goals -> Forall indep holds ->
+  indep (rabin_action nc nx ny H G E S holds goals true plus_one zk yki xkijr).
+Proof. exact (rabin_action_moore_indep nc nx ny H G E S holds goals). Qed.
+
+Theorem C05_memory_in_range : forall moore plus_one zk yki xkijr,
+  Forall (fun yi => length yi <= length holds) yki ->
+  forall v, inr nc nx (ny * (H * G)) v ->
+  rabin_action nc nx ny H G E S holds goals moore plus_one zk yki xkijr v = true ->
+  (E v = true -> rh H G v <= length holds /\ rg H G v <= length goals - 1 /\
+                 rhp H G v <= length holds /\ rgp H G v <= length goals - 1) /\
+  (plus_one = true -> rh H G v <= length holds /\ rg H G v <= length goals - 1).
+Proof. exact (rabin_memory_range nc nx ny H G E S holds goals). Qed.
 End C05.
 
 Section Refuted_dead_end.
@@ -130,5 +150,7 @@ Proof. vm_compute. repeat split; repeat constructor. Qed.
 End Refuted_stale_hold.
 
 Print Assumptions C05_refines_component_action.
+Print Assumptions C05_moore_independent_of_next_env.
+Print Assumptions C05_memory_in_range.
 Print Assumptions C05_refuted_dead_end.
 Print Assumptions C05_refuted_stale_hold.
